@@ -291,7 +291,7 @@ def run(rep, repo, tier):
       continue
     n += 1
     f = b.fwd("infer")
-    loc = b.pe.locs.get(b.term)
+    loc = b.pe.loc_of(b.term)
     for lo, hi in ((None, F(0)), (F(0), None)):
       check_region(rep, cfg, unit, f, ref, step, codes, lo, hi, loc)
     # R5 monotone on the whole line, else per half line + ordering
